@@ -96,7 +96,9 @@ func VerifC16_v1simple_main() {
 	vFairTicks()
 	vSleepBudget(2)
 	vExpect("HORIZON", "ok") // GracefulStop with an input that is never closed does not end (documented)
+	vTermWatch(s.err, s.output, s.feedback)
 	vRunSpawned(1) // Simple.main
+	vRunLeftoverSpawned()
 	vReach("main returned")
 	vAssert(vSpawnCount() == 2+H, "C01/C19: Simple.main starts exactly HandlersQuantity handlers")
 	vAssert(handlersRun, "C07: Simple.main waits for its handlers")
